@@ -553,7 +553,7 @@ func (k *scoreKit) compareScore(rule string, fn *types.Func, ref []refLeaf) (hit
 								hits = append(hits, kfHit{fn: holder, role: role, pos: site})
 							}
 						} else {
-							c.Fail("rounding-point", fmt.Sprintf("helper=%s operand=%s", round2.Name(), clip(strip2(x.Args[0]).Pretty())), site, "a sub-score is rounded (in "+holder+") before use at a point where the specification does not round")
+							c.Fail("rounding-point", fmt.Sprintf("helper=round-to-2-decimals operand=%s", clip(strip2(x.Args[0]).Pretty())), site, "a sub-score is rounded (in "+holder+") before use at a point where the specification does not round")
 							all = false
 						}
 					}
